@@ -2,7 +2,7 @@
    computation over a table regenerated from /repo. *)
 From Coq Require Import List String ZArith.
 From Helm Require Import Values.Tree Values.Merge Values.Coalesce Values.Options
-                         Values.MergeProofs Values.CoalesceProofs Values.SubchartProofs Values.DepthProofs
+                         Values.MergeProofs Values.CoalesceProofs Values.SubchartProofs Values.DepthProofs Values.GlobalProofs
                          Values.Strvals Values.StrvalsProofs Gen.ValueOrder.
 Import ListNotations.
 Local Open Scope string_scope.
@@ -188,3 +188,40 @@ Example C04_coalesce_depth_nonvacuous :
      /\ default_at [ex_l0; ex_l1; ex_l2] ["o"] = Some (Some (VStr "own")).
 Proof. exact ex_depth. Qed.
 Print Assumptions C04_coalesce_depth_nonvacuous.
+
+(* Paths inside "global": a (non-null) global leaf visible in a chart's coalesced values is
+   visible at the same path inside every direct subchart's scope — the parent's global wins
+   over whatever the subchart's section or defaults say — unless the subchart's own section
+   (after the parent's defaults were applied: coalesce_values) holds, at the same top-level
+   global key, a value of the other kind (a table where the parent has a non-table or the
+   other way round; coalesceGlobals skips those with a warning) or a "global" that is not a
+   table.  Applied again to the subchart's result it carries the leaf down any chain. *)
+Theorem C04_global_flows_down :
+  forall (merge : bool) (n : string) (dflt : vmap) (deps : list chart) (user : vmap) (sub : chart) (r : vmap)
+         (g : string) (p' : list string) (x : val),
+  wf (VMap dflt) -> wf (VMap user) -> wf (VMap (cvalues sub)) ->
+  NoDup (map cname deps) -> In sub deps ->
+  ~ In global_key (map cname deps) -> ~ In global_key (map cname (cdeps sub)) ->
+  coalesce merge (mkChart n dflt deps) user = Some r ->
+  lookup_path (global_key :: g :: p') (VMap r) = Some x -> is_table x = false -> x <> VNull ->
+  match mget global_key (section_of (cname sub) (coalesce_values merge (mkChart n dflt deps) user)) with
+  | None => True
+  | Some (VMap mg) => match mget g mg with
+                      | None => True
+                      | Some y => is_table y = match p' with [] => false | _ => true end
+                      end
+  | Some _ => False
+  end ->
+  lookup_path (cname sub :: global_key :: g :: p') (VMap r) = Some x.
+Proof. exact global_flows_down. Qed.
+Print Assumptions C04_global_flows_down.
+
+Example C04_global_flows_down_nonvacuous :
+  exists r, coalesce false ex_gtop ex_guser = Some r
+  /\ lookup_path ["global"; "a"; "b"] (VMap r) = Some (VStr "user-b")
+  /\ lookup_path ["sub"; "global"; "a"; "b"] (VMap r) = Some (VStr "user-b")
+  /\ lookup_path ["sub"; "global"; "a"; "own"] (VMap r) = Some (VStr "o")
+  /\ lookup_path ["sub"; "global"; "t"] (VMap r) = Some (VStr "top-default")
+  /\ mget global_key (section_of "sub" (coalesce_values false ex_gtop ex_guser)) = None.
+Proof. exact ex_global. Qed.
+Print Assumptions C04_global_flows_down_nonvacuous.
